@@ -22,7 +22,7 @@ for p in "$@"; do echo "== go test $p (with patch, demo removed)"; go test -vet=
 git status --short | grep '^??' | awk '{print $2}' | xargs -r rm -rf
 cd $SV
 echo "== ./check $ID against the patched tree"
-VERIF_REPO=$WT ./check $ID > /tmp/seedchk-$ID.check.log 2>&1; echo "check rc=$?"; grep -E "^VIOLATION|^KNOWN" /tmp/seedchk-$ID.check.log; tail -1 /tmp/seedchk-$ID.check.log
+VERIF_REPO=$WT ./check ${CHECK:-$ID} > /tmp/seedchk-$ID.check.log 2>&1; echo "check rc=$?"; grep -E "^VIOLATION|^KNOWN" /tmp/seedchk-$ID.check.log; tail -1 /tmp/seedchk-$ID.check.log
 ls $SV/replay 2>/dev/null | head -3
 cp $SV/replay/*.json /tmp/seedchk-$ID.replay.json 2>/dev/null
 cd /verif
